@@ -9,6 +9,7 @@ import (
 	"runtime"
 	"runtime/debug"
 	"sort"
+	"strconv"
 	"strings"
 	"sync"
 	"time"
@@ -74,30 +75,30 @@ type AssertStat struct {
 }
 
 type Explorer struct {
-	mu         sync.Mutex
-	cfg        *Config
-	queue      [][]int64
-	active     int
-	cond       *sync.Cond
-	Paths      int
-	Ended      map[string]int
-	EndMsgs    map[string]int
-	Decisions  int
-	Queries    int
-	SolverTime time.Duration
-	Asserts    map[string]*AssertStat
-	Reached    map[string]bool
-	ReachDecl  map[string]bool
-	Violations []*Violation
-	vioSeen    map[string]bool
-	Funcs      map[string]bool
-	Warnings   map[string]bool
-	Assumes    map[string]bool
-	Samples    []string
-	stop       bool
-	PerSolver  map[string]int
-	Outs       []string
-	logSeq     int
+	mu           sync.Mutex
+	cfg          *Config
+	queue        [][]int64
+	active       int
+	cond         *sync.Cond
+	Paths        int
+	Ended        map[string]int
+	EndMsgs      map[string]int
+	Decisions    int
+	Queries      int
+	SolverTime   time.Duration
+	Asserts      map[string]*AssertStat
+	Reached      map[string]bool
+	ReachDecl    map[string]bool
+	Violations   []*Violation
+	vioSeen      map[string]bool
+	Funcs        map[string]bool
+	Warnings     map[string]bool
+	Assumes      map[string]bool
+	Samples      []string
+	stop         bool
+	PerSolver    map[string]int
+	Outs         []string
+	logSeq       int
 	MaxDepthSeen int
 }
 
@@ -254,10 +255,21 @@ func (in *Interp) check(extra *Term) Verdict {
 			}
 		}
 		in.syncOne(s)
+		t0 := time.Now()
 		if extra == nil {
 			v = s.Check()
 		} else {
 			v = s.CheckWith(extra, in.tt)
+		}
+		if slowLogMs > 0 && time.Since(t0) > time.Duration(slowLogMs)*time.Millisecond {
+			es := ""
+			if extra != nil {
+				es = extra.String()
+				if len(es) > 300 {
+					es = es[:300]
+				}
+			}
+			fmt.Fprintf(os.Stderr, "SLOW %s %v %dms pc=%d extra=%s\n", s.kind, v, time.Since(t0).Milliseconds(), len(in.path.pc), es)
 		}
 		if v != Unknown {
 			in.solver = s
@@ -598,6 +610,8 @@ func (in *Interp) reach(label string, c *Term) {
 		ex.mu.Unlock()
 	}
 }
+
+var slowLogMs, _ = strconv.Atoi(os.Getenv("GOSYM_SLOW"))
 
 // ---------------------------------------------------------------- running
 
